@@ -16,11 +16,11 @@ def component(ctx):
     hb = ctx.build("h-quic")
     import C18
     k = 0
-    for limit, rotate, life in ([(3, "TRUE", 5), (2, "FALSE", 4)] if q else [(3, "TRUE", 5), (2, "FALSE", 4), (2, "TRUE", 6), (4, "TRUE", 5), (3, "TRUE", 0)]):
+    for limit, rotate, life in ([(3, "TRUE", 5), (2, "FALSE", 4)] if q else [(3, "TRUE", 5), (2, "FALSE", 4), (2, "TRUE", 6), (3, "FALSE", 6), (3, "TRUE", 0)]):
         cfg = ctx.make_cfg("Gen_LocalIds.cfg", "Gen_LocalIds_run%d.cfg" % k, {"Limit": limit, "Rotate": rotate, "Lifetime": life})
         beh, n = ctx.gen("Gen_LocalIds", "gen_localids_%d.txt" % k, cfg=cfg, simulate=(60 if q else 600, 41))
         tf = os.path.join(ctx.out, "cidreg-gen-%d.ndjson" % k)
-        r = ctx.harness(hb, ["cidreg-run", beh, tf])
+        r = ctx.harness(hb, ["cidreg-run", beh, tf, 400 if q else 4000])
         os.remove(beh)
         ctx.cov["stages"].append({"stage": "replay", "what": "LocalIds behaviours on the real LocalIdRegistry", **{x: v for x, v in r.items() if not x.startswith("_")}})
         ctx.count(r["steps"])
@@ -43,7 +43,7 @@ def component(ctx):
         cfg = ctx.make_cfg("Gen_PeerIds.cfg", "Gen_PeerIds_run%d.cfg" % k, {"Rotate": rot, "Dishonest": dis})
         beh, n = ctx.gen("Gen_PeerIds", "gen_peerids_%d.txt" % k, cfg=cfg, simulate=(40 if q else 400, 31))
         tf = os.path.join(ctx.out, "peerreg-gen-%d.ndjson" % k)
-        r = ctx.harness(hb, ["peerreg-run", beh, tf])
+        r = ctx.harness(hb, ["peerreg-run", beh, tf, 1500 if q else 12000])
         os.remove(beh)
         ctx.cov["stages"].append({"stage": "replay", "what": "PeerIds behaviours on the real PeerIdRegistry", **{x: v for x, v in r.items() if not x.startswith("_")}})
         ctx.count(r["steps"])
